@@ -370,7 +370,20 @@ def run_fetch(case):
                     def dw(refs, depth=None):
                         return [w for w in wants if w not in target.object_store]
                     if transport == "local":
+                        pdir = os.path.join(target.object_store.path, "pack")
+                        packs_before = set(os.listdir(pdir)) if os.path.isdir(pdir) else set()
                         res = LocalGitClient().fetch(sd, target, determine_wants=dw)
+                        newidx = [f for f in (os.listdir(pdir) if os.path.isdir(pdir) else []) if f.endswith(".idx") and f not in packs_before]
+                        if newidx and rng.random() < 0.4:
+                            # the state a receiver killed between "pack renamed into place" and "index written" leaves behind, then the same
+                            # fetch again (what a user does after a crash): it must succeed and deliver everything
+                            target.close()
+                            for f in newidx:
+                                os.unlink(os.path.join(pdir, f))
+                            target = Repo(rd)
+                            res = LocalGitClient().fetch(sd, target, determine_wants=dw)
+                            feats.add("retried-after-crash-between-pack-and-index")
+                            stats["retries_after_simulated_crash"] = 1
                     else:
                         buf = io.BytesIO()
                         res = LocalGitClient().fetch_pack(sd, dw, target.get_graph_walker(), buf.write)
